@@ -393,7 +393,7 @@ impl Check for C06Check {
             Phase::random("random-deep-expressions", tier.pick(120_000, 3_000_000), 96).with_min_tape(16).with_chunk(2048),
             Phase::exhaustive("statement-blocks", block_string_count(tier.pick(7, 8))).with_chunk(16384),
             Phase::exhaustive("control-flow-skeletons", crate::model::astgen::CONTROL.count_up_to(tier.pick(8, 9))).with_chunk(4096),
-            Phase::exhaustive("repetition", repetition_programs().len() as u64).with_chunk(16),
+            Phase::exhaustive("repetition", repetition_corpus().len() as u64).with_chunk(16),
         ]
     }
     fn run(&self, tier: Tier, phase: usize, input: &Input, ctx: &mut CaseCtx) {
@@ -402,7 +402,7 @@ impl Check for C06Check {
                 judge(s, ctx, 3000);
             }
             (8, Input::Index(i)) => {
-                judge(&repetition_programs()[*i as usize], ctx, 2000);
+                judge(&repetition_corpus()[*i as usize], ctx, 2000);
             }
             (0, Input::Index(i)) => {
                 let template = REAPPLY_FAMILY[*i as usize];
